@@ -58,7 +58,8 @@ type simConn struct {
 	sentIn    []byte // everything the broker ever queued (for monitors)
 	bk        *brokerConn
 	// writes: offsets in out where each Write call started (for monitors)
-	closeErr error
+	closeErr  error
+	stallNext bool
 }
 
 func (c *simConn) String() string { return "c" + itoa(c.id) }
